@@ -1,0 +1,10 @@
+//go:build !verif
+
+package gorums
+
+// Verification hooks (build tag "verif"). Without the tag these are empty
+// functions that the compiler inlines away.
+
+func vEmit(ev string, node uint32, msg uint64, kv ...interface{}) {}
+
+func vGate(ev string, node uint32, msg uint64, kv ...interface{}) {}
